@@ -24,6 +24,15 @@ let () =
   register "swapaxes" (fun t -> match List.map nats (split_on "|" t) with
     | [np; a; b] -> show_nats (swap_axes np a b) ^ " ; " ^ (if compatible np a b then "1" else "0")
     | _ -> "?args");
+  (* acc N | nprocs | dims | coords  ->  for every axis i: getCoordVals(i) as indices ; ... || for every dimension e: getEta(e) as k:index ... *)
+  register "acc" (fun t -> match List.map nats (split_on "|" t) with
+    | [n; np; dims; co] ->
+        let d = List.length dims in
+        let ax = List.init d (fun i -> show_nats (acc_coord_vals_idx n np dims co (nat_of_int i))) in
+        let et = List.init d (fun e -> String.concat " " (List.map (fun (k, v) -> string_of_int (int_of_nat k) ^ ":" ^ string_of_int (int_of_nat v))
+                                                           (acc_get_eta_idx n np dims co (nat_of_int e)))) in
+        String.concat " ; " ax ^ " || " ^ String.concat " ; " et
+    | _ -> "?args");
   (* ggi starts | dims | idx *)
   register "ggi" (fun t -> match List.map nats (split_on "|" t) with
     | [st; dims; idx] -> show_nats (global_indices st dims idx)
